@@ -727,12 +727,13 @@ def eval_c09(case, ctx):
 
 ACCTS = ["alice", "bob", "ircoper", "alice2", "Alice"]
 ACCT_PATS = ["alice", "al*", "*", "?lice", "a*e", "bob", "*oper", "alice?", "b?b", "zed*", "ALICE"]
-IDENTS = ["joe", "~joe", "oper", "~web", "j"]
-IDENT_PATS = ["joe", "~*", "*", "j*", "?per", "~joe", "~w?b", "x*"]
-HOSTS = ["a.example.org", "b.example.org", "trusted.net", "x.y.z", ""]
+IDENTS = ["joe", "~joe", "oper", "~web", "j", "abcdefghij", "~bcdefghij"]          # the last two have the maximum length (USERLEN = 10)
+IDENT_PATS = ["joe", "~*", "*", "j*", "?per", "~joe", "~w?b", "x*", "abcdefghij", "?????????j", "*hij", "~bcdefghij"]
+HOST63 = "h" * 20 + "." + "o" * 20 + "." + "s" * 17 + ".net"                  # 63 characters: the longest host name there is
+HOSTS = ["a.example.org", "b.example.org", "trusted.net", "x.y.z", "", HOST63]
 HOST_PATS = ["*.example.org", "trusted.*", "*", "?.example.org", "a.example.org", "*.net", "nomatch.*", "",
              # patterns that would match an address text (a client without a host name has the empty host name)
-             "*.*", "10.*", "*:*", "?*"]
+             "*.*", "10.*", "*:*", "?*", HOST63, "*" + HOST63[-9:], "h*t"]
 NETS4 = [(10, 0, 0, 0), (10, 1, 2, 3), (192, 168, 0, 77), (127, 0, 0, 1), (10, 1, 255, 255), (11, 0, 0, 0), (0, 0, 0, 0), (0, 0, 0, 0), (128, 0, 0, 0)]
 NETS6 = [0x20010db8000000000000000000000001, 0x20010db8000100000000000000000002, 0xfe800000000000000000000000010002,
          0x20010db9000000000000000000000001, 0, 0xffff00000000, 0x2001abcdef0000000000000000000001, 0xfc00dead0000beef0000000000000001]
@@ -805,6 +806,8 @@ def rule_s(draw, name, svcs):
             f["hostname"] = draw(st.sampled_from(HOST_PATS))
         elif c == "xreply_ok" and svcs:
             f["xreply_ok"] = draw(st.sampled_from(svcs))
+            if draw(st.integers(0, 3)) == 0:
+                f["xreply_ok"] = f["xreply_ok"].swapcase()      # the rule may spell the service in another letter case
     if draw(st.integers(0, 3)) == 0:
         f["trust_username"] = draw(st.sampled_from(["true", "false", "yes", "0", "on"]))
     return [name, f]
